@@ -483,4 +483,71 @@ def replayCommands (w : WordOracle) (npostfix ndirect window : Nat) (mb : Bytes)
     (history : Bytes) (cmds : List Cmd) : Option Bytes :=
   (decSteps w npostfix ndirect window mb ⟨history, ring, 0⟩ cmds).map (·.out)
 
+/-! ### bookkeeping of the other `CommandProcessor`s fed by `process_command_queue`
+
+`LogMetaBlock` runs `process_command_queue` up to three more times, pushing the same IR into `StrideEval`
+(`stride_detection_quality > 2`), `ContextMapEntropy` (`cdf_adaptation_detection != 0`) and `PriorEval`
+(`prior_bitmask_detection != 0`).  Only `StrideEval` has bookkeeping that depends on the number of literal blocks:
+8 scores per "epoch" (one epoch per `BlockSwitchLiteral`) in a `score` array that doubles on demand
+(`src/enc/stride_eval.rs`); `PriorEval` indexes a fixed 8192-entry table (`src/enc/prior_eval.rs`);
+`ContextMapEntropy` has fixed tables and no per-block state.  Costs (floats) are not modelled, only sizes,
+epochs and every index / assertion. -/
+
+/-- `StrideEval`: `score.len()` and `cur_score_epoch` -/
+structure StrideSt where
+  len : Nat
+  epoch : Nat
+deriving Repr, DecidableEq
+
+/-- `StrideEval::new`: `allocate::<floatX>(8 * 4)` -/
+def StrideSt.new : StrideSt := ⟨32, 0⟩
+
+/-- `update_block_type`: `cur_score_epoch += 1; if epoch * 8 + 7 >= score.len() { double }` -/
+def StrideSt.updateBlockType (s : StrideSt) : StrideSt :=
+  if (s.epoch + 1) * 8 + 7 ≥ s.len then ⟨s.len * 2, s.epoch + 1⟩ else ⟨s.len, s.epoch + 1⟩
+
+/-- `update_cost_base` for one literal byte: `score[cur_score_epoch * 8 + i]`, `i < 8`; `none` = index panic -/
+def StrideSt.updateCost (s : StrideSt) : Option StrideSt := if s.epoch * 8 + 7 < s.len then some s else none
+
+/-- `push_base(StrideEval, cmd)`: a literal block switch opens an epoch, a non-empty literal touches the scores -/
+def StrideSt.push (s : StrideSt) : IR → Option StrideSt
+  | .bsl _ => some s.updateBlockType
+  | .lit _ len _ => if len = 0 then some s else s.updateCost
+  | _ => some s
+
+def StrideSt.pushAll : StrideSt → List IR → Option StrideSt
+  | s, [] => some s
+  | s, c :: cs => match s.push c with
+    | none => none
+    | some s' => StrideSt.pushAll s' cs
+
+/-- the three assertions of `choose_stride(stride_data)` as they are NOW (`n = stride_data.len()`) -/
+def StrideSt.chooseAsserts (s : StrideSt) (n : Nat) : Bool := n == s.epoch && decide (s.len > n) && decide (s.len ≥ n * 8 + 8)
+
+/-- the third assertion as it was before commit 9944f91: `score.len() > (n << 3) + 7 + 8` -/
+def StrideSt.chooseAssertsOld (s : StrideSt) (n : Nat) : Bool := n == s.epoch && decide (s.len > n) && decide (s.len > n * 8 + 7 + 8)
+
+/-- the reads of `choose_stride`: `score.split_at((1 + index) << 3).1.split_at(8)` for `index < n` -/
+def StrideSt.chooseReadsOk (s : StrideSt) (n : Nat) : Bool := (List.range n).all fun index => decide ((1 + index) * 8 + 8 ≤ s.len)
+
+/-- `LogMetaBlock`: `best_strides = allocate(stride_selector.num_types())`, then `choose_stride(best_strides)`;
+`none` = a panic anywhere in the stride pass -/
+def stridePass (ir : List IR) : Option Nat :=
+  match StrideSt.new.pushAll ir with
+  | none => none
+  | some s => if s.chooseAsserts s.epoch && s.chooseReadsOk s.epoch then some s.epoch else none
+
+/-- the same with the old assertion -/
+def stridePassOld (ir : List IR) : Option Nat :=
+  match StrideSt.new.pushAll ir with
+  | none => none
+  | some s => if s.chooseAssertsOld s.epoch && s.chooseReadsOk s.epoch then some s.epoch else none
+
+/-- `PriorEval::update_cost_base`: the two `score` indices for a literal (`score.len() = 8192`) -/
+def priorUpperIndex (strideByte cmPrior : Nat) : Nat := cmPrior + 256 * (strideByte / 16)
+def priorLowerIndex (cmPrior highNibble : Nat) : Nat := cmPrior + 4096 + 256 * highNibble
+def priorScoreLen : Nat := 8192
+/-- `interface::NUM_MIXING_VALUES` = `16 * 256 + 16 * 256`: the `bitmask` array `choose_bitmask` fills by score index -/
+def numMixingValues : Nat := 16 * 256 + 16 * 256
+
 end BV.Recoder
